@@ -123,7 +123,7 @@ def run(prop, tier):
     nd = 0
     for proto, n, t, byz in [('qual', 3, 1, '0'), ('jf', 3, 1, '0'), ('qual', 5, 2, '0,1')]:
         out = os.path.join(vlib.subdir('results'), 'c09dkg-%s%d.ndjson' % (proto, n))
-        vlib.run([vh, 'dkg-random', '--grid', '--stride', '7', '--proto', proto, '--n', str(n), '--t', str(t), '--byz', byz, '--count',
+        vlib.run([vh, 'dkg-random', '--grid', '--stride', '11', '--proto', proto, '--n', str(n), '--t', str(t), '--byz', byz, '--count',
                   '600' if tier == 'quick' else '4000', '--seed', str(seed), '--out', out], check=True)
         for line in open(out):
             d = json.loads(line)
